@@ -436,15 +436,15 @@ Record mslot := MS { m_rt : rt; m_hs : N; m_filed : N }.
 Record world := W { w_maps : gmap N mslot; w_log : log; w_fuse : option N }.
 Definition world0 : world := W ∅ log0 None.
 
-Record traced := T { t_op : op; t_on : N; t_perm : list N; t_qperm : list N }.
+Record traced := T { t_op : op; t_on : N; t_tomb : N; t_perm : list N; t_qperm : list N }.
 
-Definition load (w : world) (m : mslot) (on : N) (perm : list N * list N) : st :=
-  St (m_rt m) (m_hs m) (m_filed m) (w_log w) (w_fuse w) on (fst perm) (snd perm).
+Definition load (w : world) (m : mslot) (on : N * N) (perm : list N * list N) : st :=
+  St (m_rt m) (m_hs m) (m_filed m) (w_log w) (w_fuse w) (fst on) (snd on) (fst perm) (snd perm).
 Definition store (w : world) (i : N) (s : st) : world :=
   W (<[i := MS (s_rt s) (s_hs s) (s_filed s)]> (w_maps w)) (s_log s) (s_fuse s).
 
 (* run a single-map action on slot i *)
-Definition with_slot {A} (w : world) (i on : N) (perm : list N * list N) (m : M' A) : res world A :=
+Definition with_slot {A} (w : world) (i : N) (on : N * N) (perm : list N * list N) (m : M' A) : res world A :=
   match w_maps w !! i with
   | None => Fault FBadOp
   | Some ms =>
@@ -473,7 +473,7 @@ Definition rmap {A B} (f : A -> B) (r : res world A) : res world B :=
   end.
 
 Definition step (w : world) (t : traced) : res world out :=
-  let on := t_on t in let perm := (t_perm t, t_qperm t) in
+  let on := (t_on t, t_tomb t) in let perm := (t_perm t, t_qperm t) in
   match t_op t with
   | ONew s hs cap =>
       let w0 := W (<[s := MS rt_new hs hs]> (w_maps w)) (w_log w) (w_fuse w) in
